@@ -4,7 +4,7 @@
    (Finished PDU) file status Retained with delivery code Complete, the filestore holds exactly
    f under the destination name - no appeal to the checksum. *)
 From CFDP Require Import Base.Prelude Model.Segments Model.Timer Model.TxTypes Model.Recv Model.Send
-  Proofs.SegmentsP Proofs.TimerP Proofs.Tac Proofs.RecvP Proofs.StageP.
+  Proofs.SegmentsP Proofs.TimerP Proofs.Tac Proofs.RecvP Proofs.RecvP4 Proofs.RecvRun Proofs.StageP.
 
 (* peel record updates, stopping at what touches the output list or the prepared Finished PDU *)
 Ltac strip_f t :=
@@ -298,6 +298,345 @@ Proof.
   repeat (first [destr_pair_keep | destr_inner]; cbn [fst snd]); try ph.
   all: match goal with |- PH (upd_ack _ (set_fin_flag ?b ?x)) =>
          eapply (PH_ext (set_fin_flag b x)); [apply PH_set_fin_flag; ph | reflexivity ..] end.
+Qed.
+
+(* ---- finalisation ---- *)
+Lemma cond_eqb_eq a b : cond_eqb a b = true -> a = b.
+Proof. unfold cond_eqb. intros H. apply N.eqb_eq in H. destruct a, b; cbn in H; try reflexivity; discriminate. Qed.
+
+Lemma no_success_outs (s : rstate) : FI s -> r_fstat s <> FRetained -> Forall (fun o => ~ success_out o) (r_out s).
+Proof.
+  intros (_ & _ & _ & _ & E) Hn. eapply Forall_impl; [|exact E]. intros o Ho Hs. destruct (Ho Hs) as (A & _). contradiction.
+Qed.
+
+(* a state in which nothing has been stored and no Finished PDU prepared: FI whatever dc is *)
+Lemma FI_fresh (s s' : rstate) : FI s -> r_fstat s <> FRetained -> r_fin s = None ->
+  r_meta s' = r_meta s -> r_fsize s' = r_fsize s -> r_fstat s' <> FRetained -> r_fin s' = None ->
+  r_out s' = r_out s -> FI s'.
+Proof.
+  intros H Hn Hf E1 E2 Hn' Hf' E3. pose proof (no_success_outs s H Hn) as Hno.
+  destruct H as (A & B & C & D & E). unfold FI. rewrite E1, E2, Hf', E3. splits; auto.
+  - intros Hr. contradiction.
+  - intros fn b Hx. discriminate.
+  - eapply Forall_impl; [|exact Hno]. intros o Ho Hs. contradiction.
+Qed.
+
+Lemma meta_dst_of (s : rstate) : FI s -> is_some (r_meta s) = true -> meta_dst s = md_dst m /\ meta_reqs s = [].
+Proof.
+  intros (A & _) Hm. unfold meta_dst, meta_reqs. destruct A as [A|A]; rewrite A in *; [discriminate|].
+  split; [reflexivity|exact no_requests].
+Qed.
+Lemma meta_reqs_nil (s : rstate) : FI s -> meta_reqs s = [].
+Proof. intros (A & _). unfold meta_reqs. destruct A as [A|A]; rewrite A; [reflexivity|exact no_requests]. Qed.
+
+Lemma FI_fr_requests s : FI s -> FI (fr_requests FS fs_exec resp_fail not_performed s).
+Proof.
+  intros H. unfold fr_requests. rewrite (meta_reqs_nil s H). cbn [run_requests].
+  match goal with |- FI (emit_ind (IFinished ?rep ?a ?b ?resps) ?x) =>
+    change a with (r_fstat x); change b with (r_dc x); apply FI_fin_ind end.
+  eapply (FI_ext s); [exact H | reflexivity ..].
+Qed.
+
+Lemma FI_fr_rejection now s : FI s -> FI (fst (fr_rejection now s)).
+Proof. intros H. unfold fr_rejection. destruct (r_fstat s); cbn [fst]; try exact H. apply FI_handle_fault. exact H. Qed.
+
+Lemma FI_finalize now s : FI s -> PH s -> r_phase s = RecvData -> FI (finalize_receive now s).
+Proof.
+  intros H (P1 & P2 & P3) Hp. specialize (P1 Hp). specialize (P2 Hp). specialize (P3 Hp).
+  unfold Recv.finalize_receive.
+  set (dc := if delivery_complete s then DComplete else DIncomplete).
+  assert (H0 : FI (set_r_dc dc s)) by (eapply (FI_fresh s); try eassumption; reflexivity).
+  assert (Hrest : forall s2 : rstate, FI s2 ->
+            FI (let '(s3, go) := fr_rejection now s2 in if go then fr_requests FS fs_exec resp_fail not_performed s3 else s3)).
+  { intros s2 H2. pose proof (FI_fr_rejection now s2 H2) as H3.
+    destruct (fr_rejection now s2) as [s3 go]. cbn [fst] in H3. destruct go; [apply FI_fr_requests|]; exact H3. }
+  destruct (is_file_transfer (set_r_dc dc s)) eqn:Eft.
+  2: { apply Hrest. eapply (FI_fresh s); try eassumption; try reflexivity. cbn. discriminate. }
+  (* file transfer: verify, store *)
+  unfold fr_verify.
+  set (s1 := set_r_staged (Some (staged_content (set_r_dc dc s))) (set_r_dc dc s)).
+  assert (H1 : FI s1) by (eapply (FI_ext (set_r_dc dc s)); [exact H0 | reflexivity ..]).
+  assert (Hst : forall s2 : rstate, FI s2 -> r_meta s2 = r_meta s -> r_fsize s2 = r_fsize s -> r_fstat s2 <> FRetained ->
+            r_fin s2 = None -> r_dc s2 = dc -> r_segs s2 = r_segs s -> staged_content s2 = staged_content s ->
+            FI (fr_store FS fs_write_file s2)).
+  { intros s2 H2 E1 E2 Hn2 Hf2 Ed Es Ec. unfold fr_store.
+    destruct (fs_write_file (r_fs s2) (meta_dst s2) (staged_content s2)) as [fs'|] eqn:Ew.
+    - pose proof (no_success_outs s2 H2 Hn2) as Hno.
+      destruct H2 as (A & B & C & D & E). unfold FI. cbn. rewrite Hf2. splits; auto.
+      + intros _ Hdc. rewrite Ed in Hdc. unfold dc in Hdc. destruct (delivery_complete s) eqn:Edc; [|discriminate].
+        unfold delivery_complete in Edc. apply andb_prop in Edc as [Em Ec2].
+        assert (Hft : is_file_transfer s = true) by exact Eft. rewrite Hft in Ec2. cbn in Ec2.
+        destruct (r_fsize s) as [z|] eqn:Ez; [|discriminate].
+        assert (Hz : z = flen) by (destruct H as (_ & B' & _); apply B'; exact Ez). subst z.
+        pose proof (agrees_complete f _ P1 Ec2) as Hcontent. cbn [fst] in Hcontent.
+        assert (Hd : meta_dst s2 = md_dst m).
+        { unfold meta_dst. rewrite E1. destruct H as ([A'|A'] & _); rewrite A' in *; [discriminate|reflexivity]. }
+        rewrite Hd, Ec, Hcontent in Ew. apply (write_lookup _ _ _ _ Ew).
+      + intros fn b Hx. discriminate.
+      + eapply Forall_impl; [|exact Hno]. intros o Ho Hs. contradiction.
+    - eapply (FI_fresh s2); try eassumption; try reflexivity. cbn. discriminate. }
+  destruct (cksum (meta_ck s1) (staged_content (set_r_dc dc s)) =? expected_cksum s1).
+  - apply Hrest. apply Hst; try reflexivity; assumption.
+  - (* checksum mismatch: the fault handler decides *)
+    unfold handle_fault.
+    set (s2 := emit_ind (IFault FileChecksumFailure (r_recvd (set_r_cond FileChecksumFailure s1))) (set_r_cond FileChecksumFailure s1)).
+    assert (H2 : FI s2) by (unfold s2; fi).
+    destruct (handler (r_cfg s2) FileChecksumFailure).
+    + apply FI_cancel_. exact H2.
+    + apply FI_suspend. exact H2.
+    + apply Hrest. apply Hst; try reflexivity; try assumption.
+    + apply FI_abandon. exact H2.
+Qed.
+
+(* ---- the whole invariant; after an unacknowledged transfer without closure only the
+   phase-independent part survives, in a terminated transaction ---- *)
+Definition DU (s : rstate) : Prop := FI s /\ PH s.
+Definition DG (s : rstate) : Prop := DU s \/ (r_state s = TTerminated /\ FI s).
+
+Lemma DU_check_finished now s : DU s -> DU (check_finished now s).
+Proof.
+  intros (H & P). unfold Recv.check_finished.
+  destruct (rphase_eqb (r_phase s) RecvData) eqn:Ep; cbn [andb]; [|split; assumption].
+  destruct (is_some (r_meta s) && eof_received s && negb (is_file_transfer s && has_naks s)); [|split; assumption].
+  assert (Hp : r_phase s = RecvData) by (destruct (r_phase s); try discriminate; reflexivity).
+  pose proof (FI_finalize now s H P Hp) as H1.
+  remember (finalize_receive now s) as s1 eqn:E1; clear E1. split.
+  - eapply (FI_ext (prepare_finished None (set_r_phase RFinished s1))); [|reflexivity ..].
+    apply FI_prepare_finished. eapply (FI_ext s1); [exact H1 | reflexivity ..].
+  - apply PH_fin. reflexivity.
+Qed.
+
+Lemma DU_store off d s : DU s -> truthful_fd f (off, d) -> DU (store_file_data off d s).
+Proof.
+  intros (H & (P1 & P2 & P3)) Ht. split.
+  - unfold store_file_data. destruct (is_nil d); [exact H|]. destruct (ins _ _ _). fi.
+  - unfold PH. pose proof (store_is_stage1 FS off d s) as Est.
+    assert (E1 : r_phase (store_file_data off d s) = r_phase s /\ r_fstat (store_file_data off d s) = r_fstat s /\
+                 r_fin (store_file_data off d s) = r_fin s).
+    { unfold store_file_data. destruct (is_nil d); [auto|]. destruct (ins _ _ _). cbn. auto. }
+    destruct E1 as (E1 & E2 & E3). rewrite E1, E2, E3. splits; auto.
+    intros Hp. rewrite Est. apply stage1_agrees; [exact Ht|apply P1; exact Hp].
+Qed.
+
+(* inputs that are truthful for (f, m) *)
+Definition truthful_in (o : rop) : Prop :=
+  match o with
+  | RPdu (PFileData off d) => truthful_fd f (off, d)
+  | RPdu (PMetadata m') => m' = m
+  | RPdu (PEof e) => eof_cond e = NoError -> eof_size e = flen
+  | _ => True
+  end.
+
+Lemma DU_simple (s s' : rstate) : DU s -> r_meta s' = r_meta s -> r_fsize s' = r_fsize s ->
+  r_fstat s' = r_fstat s -> r_dc s' = r_dc s -> r_fs s' = r_fs s -> r_fin s' = r_fin s ->
+  r_out s' = r_out s -> r_phase s' = r_phase s -> r_staged s' = r_staged s -> r_segs s' = r_segs s -> DU s'.
+Proof.
+  intros (H & P) E1 E2 E3 E4 E5 E6 E7 E8 E9 E10. split.
+  - eapply (FI_ext s); eassumption.
+  - eapply (PH_ext s); eassumption.
+Qed.
+Lemma DU_ind i s : ~ success_out (OInd i) -> DU s -> DU (emit_ind i s).
+Proof. intros Hn (H & P). split; [apply FI_ind; assumption|apply PH_ind; exact P]. Qed.
+Lemma DU_handle_fault now c s : DU s -> DU (fst (handle_fault now c s)).
+Proof. intros (H & P). split; [apply FI_handle_fault|apply PH_handle_fault]; assumption. Qed.
+Lemma DU_cancel_ now s : DU s -> DU (cancel_ now s).
+Proof. intros (H & P). split; [apply FI_cancel_; exact H|apply PH_cancel_]. Qed.
+Lemma DU_check_file_size now size s : DU s -> DU (check_file_size now size s).
+Proof. intros H. unfold check_file_size. destr_inner; [apply DU_handle_fault|]; exact H. Qed.
+
+Lemma DU_set_fsize z s : DU s -> z = flen -> DU (set_r_fsize (Some z) s).
+Proof.
+  intros ((A & B & C & D & E) & P) Hz. split.
+  - unfold FI, okout in *. cbn. splits; auto. intros z' Hz'. inversion Hz'. subst. reflexivity.
+  - eapply (PH_ext s); [exact P | reflexivity ..].
+Qed.
+Lemma DU_set_metadata s : DU s -> r_meta s = None -> DU (set_metadata m s).
+Proof.
+  intros (H & P) Hm. unfold set_metadata. split.
+  - assert (H1 : FI (emit_ind (IMetadataRecv (md_src m) (md_dst m) (md_size m) (md_msgs m)) s)) by fi.
+    destruct H1 as (A & B & C & D & E). unfold FI, okout in *. cbn in *. splits; auto.
+  - eapply (PH_ext s); [exact P | reflexivity ..].
+Qed.
+
+(* truthful data never lies beyond the end of the file, so a truthful EOF passes the size check *)
+Lemma end_le_flen (s : rstate) : agrees f (staged_content s, r_segs s) -> end_or_0 (r_segs s) <= flen.
+Proof.
+  intros (Hi & Hlen & Hag). cbn [fst snd] in *. unfold end_or_0, seg_end.
+  destruct (rev (r_segs s)) as [|[a e] t] eqn:Er; [lia|].
+  assert (Hin : In (a, e) (r_segs s)) by (apply in_rev; unfold segs, seg in *; rewrite Er; left; reflexivity).
+  assert (Hae : a < e).
+  { clear - Hi Hin. induction (r_segs s) as [|[x y] v IH]; [destruct Hin|].
+    apply Inv_cons in Hi as (Hxy & _ & Hv). destruct Hin as [Heq|Hin]; [inversion Heq; subst; exact Hxy|auto]. }
+  assert (Hc : covered (r_segs s) (e - 1)) by (exists a, e; split; [exact Hin|lia]).
+  destruct (Hag _ Hc) as (A & _). unfold flen. lia.
+Qed.
+Lemma check_file_size_truthful now (s : rstate) : PH s -> r_phase s = RecvData -> check_file_size now flen s = s.
+Proof.
+  intros (P1 & _) Hp. unfold check_file_size. pose proof (end_le_flen s (P1 Hp)) as Hle.
+  destruct (N.ltb_spec flen (end_or_0 (r_segs s))); [lia|reflexivity].
+Qed.
+
+Lemma DG_process_pdu now p s : DU s -> truthful_in (RPdu p) -> DG (fst (process_pdu now p s)).
+Proof.
+  intros H Ht. unfold Recv.process_pdu.
+  set (s0 := if suspended s then s else upd_inact (c_reset now) s).
+  assert (H0 : DU s0) by (unfold s0; destruct (suspended s); [exact H|eapply (DU_simple s); [exact H | reflexivity ..]]).
+  clearbody s0. clear H.
+  destruct (cfg_mode (r_cfg s0)); destruct p; cbn [fst]; try (left; exact H0).
+  - (* file data, acknowledged *)
+    left. unfold pdu_filedata_acked. destr_inner; [exact H0|].
+    pose proof (DU_store offset data s0 H0 Ht) as H1.
+    remember (store_file_data offset data s0) as s1 eqn:E1; clear E1.
+    apply DU_check_finished.
+    assert (H2 : DU (emit_ind (IFileSegmentRecv offset (N.of_nat (length data))) s1)) by (apply DU_ind; [cbn; tauto|exact H1]).
+    remember (emit_ind (IFileSegmentRecv offset (N.of_nat (length data))) s1) as s2 eqn:E2; clear E2.
+    unfold c_timeout_occurred.
+    repeat (destr_inner; cbn [fst snd]); try exact H2; (eapply (DU_simple s2); [exact H2 | reflexivity ..]).
+  - (* EOF, acknowledged *)
+    left. unfold pdu_eof_acked. destr_inner; [eapply (DU_simple s0); [exact H0 | reflexivity ..]|].
+    set (s1 := emit_ind IEoFRecv (set_r_cksum (Some (eof_ck e)) (prepare_ack_eof (set_r_cond (eof_cond e) s0)))).
+    assert (H1 : DU s1).
+    { unfold s1. apply DU_ind; [cbn; tauto|]. eapply (DU_simple s0); [exact H0 | reflexivity ..]. }
+    assert (Ec : r_cond s1 = eof_cond e) by reflexivity. clearbody s1.
+    destruct (cond_eqb (r_cond s1) NoError) eqn:Ece; [|apply DU_cancel_; exact H1].
+    apply cond_eqb_eq in Ece. rewrite Ec in Ece. cbn in Ht. specialize (Ht Ece).
+    pose proof (DU_check_file_size now (eof_size e) s1 H1) as H2.
+    remember (check_file_size now (eof_size e) s1) as s2 eqn:E2; clear E2.
+    pose proof (DU_set_fsize (eof_size e) s2 H2 Ht) as H3.
+    pose proof (DU_check_finished now _ H3) as H4.
+    remember (check_finished now (set_r_fsize (Some (eof_size e)) s2)) as s4 eqn:E4; clear E4.
+    repeat destr_inner; try exact H4; (eapply (DU_simple s4); [exact H4 | reflexivity ..]).
+  - (* ACK, acknowledged *)
+    left. unfold pdu_ack_acked. repeat (destr_inner; cbn [fst snd]); try exact H0;
+      (eapply (DU_simple s0); [exact H0 | reflexivity ..]).
+  - (* Metadata, acknowledged *)
+    left. unfold pdu_metadata_acked. destruct (is_some (r_meta s0)) eqn:Em; [exact H0|].
+    cbn in Ht. subst m0. apply DU_check_finished.
+    assert (Hm : r_meta s0 = None) by (destruct (r_meta s0); [discriminate|reflexivity]).
+    pose proof (DU_set_metadata s0 H0 Hm) as H1.
+    eapply (DU_simple (set_metadata m s0)); [exact H1 | reflexivity ..].
+  - (* file data, unacknowledged *)
+    left. unfold pdu_filedata_unacked. destr_inner; [exact H0|].
+    apply DU_ind; [cbn; tauto|]. apply DU_store; assumption.
+  - (* EOF, unacknowledged *)
+    unfold pdu_eof_unacked. destr_inner; [left; exact H0|].
+    assert (Hp : r_phase s0 = RecvData) by (destruct (r_phase s0); try discriminate; reflexivity).
+    set (s1 := emit_ind IEoFRecv (set_r_cksum (Some (eof_ck e)) (set_r_cond (eof_cond e) s0))).
+    assert (H1 : DU s1).
+    { unfold s1. apply DU_ind; [cbn; tauto|]. eapply (DU_simple s0); [exact H0 | reflexivity ..]. }
+    assert (Ec : r_cond s1 = eof_cond e) by reflexivity.
+    assert (Hp1 : r_phase s1 = RecvData) by exact Hp. clearbody s1.
+    destruct (cond_eqb (r_cond s1) NoError) eqn:Ece; [|left; apply DU_cancel_; exact H1].
+    apply cond_eqb_eq in Ece. rewrite Ec in Ece. cbn in Ht. specialize (Ht Ece).
+    rewrite Ht. destruct H1 as (F1 & P1). rewrite (check_file_size_truthful now s1 P1 Hp1).
+    assert (H3 : DU (set_r_fsize (Some flen) s1)) by (apply DU_set_fsize; [split; assumption|reflexivity]).
+    destruct H3 as (F3 & P3).
+    pose proof (FI_finalize now _ F3 P3 Hp1) as H4.
+    remember (finalize_receive now (set_r_fsize (Some flen) s1)) as s4 eqn:E4; clear E4.
+    destruct (closure s4).
+    + left. split; [apply FI_prepare_finished; eapply (FI_ext s4); [exact H4 | reflexivity ..]|apply PH_fin; reflexivity].
+    + right. split; [reflexivity|eapply (FI_ext s4); [exact H4 | reflexivity ..]].
+  - (* ACK, unacknowledged *)
+    left. unfold pdu_ack_unacked. repeat (destr_inner; cbn [fst snd]); try exact H0;
+      (eapply (DU_simple s0); [exact H0 | reflexivity ..]).
+  - (* Metadata, unacknowledged *)
+    left. unfold pdu_metadata_unacked. destruct (is_some (r_meta s0)) eqn:Em; [exact H0|].
+    cbn in Ht. subst m0.
+    assert (Hm : r_meta s0 = None) by (destruct (r_meta s0); [discriminate|reflexivity]).
+    apply DU_set_metadata; assumption.
+Qed.
+
+Lemma DU_clear_out s : DU s -> DU (set_r_out [] s).
+Proof.
+  intros ((A & B & C & D & E) & P). split.
+  - unfold FI in *. cbn. splits; auto.
+  - eapply (PH_ext s); [exact P | reflexivity ..].
+Qed.
+
+(* every operation, on truthful input, keeps the invariant *)
+Theorem DG_rstep now o s : DU s -> truthful_in o -> DG (fst (rstep now o s)).
+Proof.
+  intros H Ht. unfold Recv.rstep. pose proof (DU_clear_out s H) as H0.
+  destruct o; cbn [fst].
+  - apply DG_process_pdu; assumption.
+  - left. destruct (has_pdu_to_send _); [|exact H0]. destruct H0 as (F0 & P0).
+    split; [apply FI_send_pdu|apply PH_send_pdu]; assumption.
+  - left. destruct (until_timeout now _) as [[|?]|]; try exact H0. destruct H0 as (F0 & P0).
+    split; [apply FI_handle_timeout|apply PH_handle_timeout]; assumption.
+  - left. unfold cancel. apply DU_cancel_. exact H0.
+  - left. destruct H0 as (F0 & P0). split; [apply FI_suspend|apply PH_suspend]; assumption.
+  - left. destruct H0 as (F0 & P0). split; [apply FI_resume|apply PH_resume]; assumption.
+  - left. unfold send_report. apply DU_ind; [cbn; tauto|exact H0].
+  - left. exact H0.
+Qed.
+
+Lemma DU_init now cfg np fs : DU (r_new now cfg np fs).
+Proof.
+  split.
+  - unfold FI, r_new. cbn. splits; auto; try discriminate.
+  - unfold PH, r_new, staged_content, agrees. cbn. splits; auto; try discriminate.
+    + intros _. splits; [exact I|lia|]. intros x Hx. exfalso. eapply covered_nil; eauto.
+Qed.
+
+(* what the invariant says about the outputs of a step: a success claim is backed by the file *)
+Lemma DG_outputs s : DG s -> Forall (fun o => success_out o -> lookup (r_fs s) (md_dst m) = Some f) (r_out s).
+Proof.
+  intros H. assert (HF : FI s) by (destruct H as [(HF & _)|(_ & HF)]; exact HF).
+  destruct HF as (_ & _ & C & _ & E). eapply Forall_impl; [|exact E].
+  intros o Ho Hs. destruct (Ho Hs) as (A & B). auto.
+Qed.
+Lemma DG_frozen s : DG s -> (exists o, In o (r_out s) /\ success_out o) -> r_state s = TTerminated \/ not_recv FS s.
+Proof.
+  intros [((_ & _ & _ & _ & E) & (_ & P2 & _))|(Ht & _)] (o & Hin & Hs); [right|left; exact Ht].
+  rewrite Forall_forall in E. destruct (E o Hin Hs) as (A & _). unfold not_recv. intros Hp. apply (P2 Hp A).
+Qed.
+
+(* ---- histories ---- *)
+Definition truthful_ops (ops : list (N * rop)) : Prop := Forall (fun e => truthful_in (snd e)) ops.
+
+Lemma DG_step1 (s : rstate) e : DG s -> truthful_in (snd e) ->
+  DG (rstep1 fs_write_file fs_exec resp_fail not_performed cksum resp_len req_len s e).
+Proof.
+  intros H Ht. unfold rstep1, live. destruct H as [H|(Hterm & HF)].
+  - destruct (negb _); [apply DG_rstep; assumption|left; apply DU_clear_out; exact H].
+  - rewrite Hterm. cbn. right. split; [exact Hterm|].
+    destruct HF as (A & B & C & D & E). unfold FI in *. cbn. splits; auto.
+Qed.
+
+Lemma rstep1_terminated (s : rstate) e : r_state s = TTerminated ->
+  rstep1 fs_write_file fs_exec resp_fail not_performed cksum resp_len req_len s e = set_r_out [] s.
+Proof. intros Ht. unfold rstep1, live. rewrite Ht. reflexivity. Qed.
+Lemma terminated_run ops : forall (s : rstate), r_state s = TTerminated ->
+  r_fs (rrun fs_write_file fs_exec resp_fail not_performed cksum resp_len req_len ops s) = r_fs s.
+Proof.
+  induction ops as [|e t IH]; intros s Ht; [reflexivity|].
+  change (rrun fs_write_file fs_exec resp_fail not_performed cksum resp_len req_len (e :: t) s)
+    with (rrun fs_write_file fs_exec resp_fail not_performed cksum resp_len req_len t
+            (rstep1 fs_write_file fs_exec resp_fail not_performed cksum resp_len req_len s e)).
+  rewrite (rstep1_terminated s e Ht). rewrite IH; [reflexivity|exact Ht].
+Qed.
+
+(* C01, receiver half: in every history of truthful inputs - any order, duplication, loss,
+   user requests and timeouts interleaved at will - if the transaction ever emits a Finished
+   indication or Finished PDU saying Retained / Complete, then at the end of the history the
+   filestore holds exactly f under the destination name *)
+Theorem delivered_is_source ops : forall (s : rstate), DG s -> truthful_ops ops ->
+  forall o, In o (routs fs_write_file fs_exec resp_fail not_performed cksum resp_len req_len ops s) -> success_out o ->
+  lookup (r_fs (rrun fs_write_file fs_exec resp_fail not_performed cksum resp_len req_len ops s)) (md_dst m) = Some f.
+Proof.
+  induction ops as [|e t IH]; intros s H Ht o Hin Hs; cbn [routs] in Hin; [destruct Hin|].
+  inversion Ht as [|? ? Hte Htt]; subst.
+  pose proof (DG_step1 s e H Hte) as H1.
+  change (rrun fs_write_file fs_exec resp_fail not_performed cksum resp_len req_len (e :: t) s)
+    with (rrun fs_write_file fs_exec resp_fail not_performed cksum resp_len req_len t
+            (rstep1 fs_write_file fs_exec resp_fail not_performed cksum resp_len req_len s e)).
+  apply in_app_or in Hin as [Hin|Hin]; [|apply (IH _ H1 Htt o Hin Hs)].
+  apply in_rev in Hin.
+  pose proof (DG_outputs _ H1) as Ho. rewrite Forall_forall in Ho. specialize (Ho o Hin Hs).
+  destruct (DG_frozen _ H1 (ex_intro _ o (conj Hin Hs))) as [Hterm|Hnr].
+  - rewrite terminated_run; assumption.
+  - destruct (frozen_run FS fs_write_file fs_exec resp_fail not_performed cksum resp_len req_len t _ Hnr) as (A & _).
+    rewrite A. exact Ho.
 Qed.
 
 End DeliverP.
